@@ -553,6 +553,14 @@ var pref64Vocab = []string{
 	"foo", "64:ff9b::", "64:ff9b::/096", "64:FF9B::/96",
 }
 
+// every prefix length 0..128 with the canonical address for that length: the accepted set must be
+// exactly the six lengths the PREF64 option can carry
+func init() {
+	for bits := 0; bits <= 128; bits++ {
+		pref64Vocab = append(pref64Vocab, vbPref64Len(bits))
+	}
+}
+
 var serverVocab = []string{
 	"::", "2001:db8::1", "2001:db8::2", "fe80::1", "fe80::1%eth0", "fe80::1%eth1", "fe80::1%a", "::%eth0", "::1", "0::0", "0:0:0:0:0:0:0:0",
 	"2001:DB8::1", "2001:db8:0::1", "192.0.2.1", "0.0.0.0", "::ffff:192.0.2.1", "::ffff:0:0", "foo", "", "2001:db8::1/64", "fd00::53",
